@@ -574,7 +574,12 @@ class Prop(Check):
         except peg.Unsupported as e:
             res["unsupported"] = str(e)
             return res
-        allloads = [cpu_timeout(lambda t=t: load(mm, t)) for t in case["texts"]]
+        allloads = []
+        for t in case["texts"]:
+            o = cpu_timeout(lambda t=t: load(mm, t))
+            if o.get("other") == "Timeout":      # confirm a hang with a generous limit before reporting it
+                o = cpu_timeout(lambda t=t: load(mm, t), 25)
+            allloads.append(o)
         # input selection: of the candidate texts keep the accepted ones with most objects and some rejected ones
         k = int(case.get("keep", len(case["texts"])))
         acc = sorted((i for i, o in enumerate(allloads) if "ok" in o), key=lambda i: (-str(allloads[i]).count("'cls'"), i))
